@@ -74,6 +74,11 @@ pub struct Prediction {
     pub unmodelled: Option<&'static str>,
     pub is_check: bool,
     pub writes_expected: usize,
+    /// a file named more than once in an `-i` list whose formatted text is not a fixed point: the
+    /// statement does not say how often such a file is formatted, so every iterate up to the
+    /// number of times it is named is "exactly the formatted text" (a tool may well process a
+    /// file once however often it is named)
+    pub also_ok: BTreeMap<String, Vec<Vec<u8>>>,
 }
 
 /// identifiers `zq<base36>x<digits>` occurring in a text
@@ -162,6 +167,7 @@ pub fn predict(tree: &Tree, inv: &Inv, fired: &Fired, oracle: &mut Oracle) -> Pr
         unmodelled: None,
         is_check: inv.is_check(),
         writes_expected: 0,
+        also_ok: BTreeMap::new(),
     };
     let safety = p.level == Level::Safety;
     // working copy: in-place processing of a list is sequential
@@ -201,6 +207,22 @@ pub fn predict(tree: &Tree, inv: &Inv, fired: &Fired, oracle: &mut Oracle) -> Pr
         }
         Shape::Files { mode, paths } => {
             let mut seen_named: BTreeSet<String> = BTreeSet::new();
+            // The interposer names a path by cancelling `name/..` textually; the kernel does not.
+            // Where the two disagree (`..` after a link to a directory, a component that is
+            // missing or a regular file) and an injected open/read/write fault has hit the textual
+            // name, the fault may have landed on another input's file than the one the rule was
+            // written for: no verdict for this invocation.
+            for path in paths.iter().filter(|p| *p != "/dev/stdin") {
+                let lex = resolve(&inv.cwd, path);
+                if lex != resolve_phys(&work, &inv.cwd, path).ok() {
+                    if let Some(l) = &lex {
+                        if fired.read_failed.contains(l) || fired.write_failed.contains(l) {
+                            p.oracle_unavailable = true;
+                            return p;
+                        }
+                    }
+                }
+            }
             for path in paths {
                 if path == "/dev/stdin" {
                     // `gen | typstyle /dev/stdin`: a path whose content is the (piped) standard
@@ -233,15 +255,30 @@ pub fn predict(tree: &Tree, inv: &Inv, fired: &Fired, oracle: &mut Oracle) -> Pr
                     p.inputs.push(InputInfo { named: "/dev/stdin".into(), class, len: bytes.len() });
                     continue;
                 }
-                let Some(named) = resolve(&inv.cwd, path) else {
-                    p.unmodelled = Some("path leaves the world");
-                    return p;
+                let lex = resolve(&inv.cwd, path);
+                let named = match resolve_phys(&work, &inv.cwd, path) {
+                    Ok(k) => k,
+                    Err(PathErr::Leaves) => {
+                        p.unmodelled = Some("path leaves the world");
+                        return p;
+                    }
+                    Err(e) => {
+                        p.any_unreadable = true;
+                        let why = match e {
+                            PathErr::NotDir => "a component is not a directory",
+                            PathErr::Loop => "too many links",
+                            _ => "missing",
+                        };
+                        p.inputs.push(InputInfo { named: lex.unwrap_or_else(|| path.clone()), class: InputClass::Unreadable(why), len: 0 });
+                        continue;
+                    }
                 };
+                let faulted = |set: &BTreeSet<String>| set.contains(&named);
                 let dup = !seen_named.insert(named.clone());
                 let target = follow(&work, &named);
                 let node = target.as_ref().and_then(|t| work.get(t)).cloned();
                 let (class, new, len) = match node {
-                    _ if fired.read_failed.contains(&named) => (InputClass::Unreadable("injected read fault"), None, 0),
+                    _ if faulted(&fired.read_failed) => (InputClass::Unreadable("injected read fault"), None, 0),
                     None => (InputClass::Unreadable("missing"), None, 0),
                     Some(Node::Dir) => (InputClass::Unreadable("is a directory"), None, 0),
                     Some(Node::Symlink(_)) => (InputClass::Unreadable("symlink loop"), None, 0),
@@ -271,10 +308,14 @@ pub fn predict(tree: &Tree, inv: &Inv, fired: &Fired, oracle: &mut Oracle) -> Pr
                         stdout.extend_from_slice(new.as_bytes());
                         if *mode == Mode::Inplace {
                             let t = target.clone().unwrap();
-                            let torn = fired.write_failed.contains(&named) || safety;
-                            if torn && (dup || paths.iter().filter(|q| resolve(&inv.cwd, q).as_deref() == Some(&named)).count() > 1) {
+                            let torn = faulted(&fired.write_failed) || safety;
+                            if torn && (dup || paths.iter().filter(|q| resolve_phys(&work, &inv.cwd, q).ok().as_ref() == Some(&named)).count() > 1) {
                                 // a torn file that is read again later in the same list: not predictable
                                 p.unmodelled = Some("write fault on a path listed twice");
+                            }
+                            if let Some(FileExpect::Exactly(earlier)) = p.files.get(&t) {
+                                let e = earlier.clone();
+                                p.also_ok.entry(t.clone()).or_default().push(e);
                             }
                             p.files.insert(
                                 t.clone(),
@@ -296,13 +337,19 @@ pub fn predict(tree: &Tree, inv: &Inv, fired: &Fired, oracle: &mut Oracle) -> Pr
             }
         }
         Shape::FormatAll { check, dir, .. } => {
-            let dir_key = match dir {
-                None => resolve(&inv.cwd, "."),
-                Some(d) => resolve(&inv.cwd, d),
-            };
-            let Some(dir_key) = dir_key else {
+            let given = dir.as_deref().unwrap_or(".");
+            let Some(lex_key) = resolve(&inv.cwd, given) else {
                 p.unmodelled = Some("DIR leaves the world");
                 return p;
+            };
+            // a DIR that is (or leads through) a link to a directory: the walk starts at the
+            // directory the kernel reaches
+            let dir_key = match resolve_phys(tree, &inv.cwd, given).ok().and_then(|k| follow(tree, &k)) {
+                Some(k) => k,
+                None => {
+                    p.unmodelled = Some("DIR is not a directory");
+                    return p;
+                }
             };
             let dir_is_dir = dir_key == "." || matches!(tree.get(&dir_key), Some(Node::Dir));
             if !dir_is_dir {
@@ -310,6 +357,32 @@ pub fn predict(tree: &Tree, inv: &Inv, fired: &Fired, oracle: &mut Oracle) -> Pr
                 p.unmodelled = Some("DIR is not a directory");
                 return p;
             }
+            // the interposer names what the tool touches by the path it was given: translate
+            let translated;
+            let fired = if lex_key != dir_key {
+                let tr = |set: &BTreeSet<String>| -> BTreeSet<String> {
+                    set.iter()
+                        .map(|k| {
+                            if *k == lex_key {
+                                dir_key.clone()
+                            } else if is_below(k, &lex_key) {
+                                let rest = if lex_key == "." { k.as_str() } else { &k[lex_key.len() + 1..] };
+                                if dir_key == "." { rest.to_string() } else { format!("{}/{}", dir_key, rest) }
+                            } else {
+                                k.clone()
+                            }
+                        })
+                        .collect()
+                };
+                let mut f = fired.clone();
+                f.read_failed = tr(&fired.read_failed);
+                f.write_failed = tr(&fired.write_failed);
+                f.walk_failed = tr(&fired.walk_failed);
+                translated = f;
+                &translated
+            } else {
+                fired
+            };
             p.cwd_fault = fired.cwd_failed && dir.is_none();
             for d in &fired.walk_failed {
                 let pruned = if *d == dir_key {
@@ -431,7 +504,8 @@ pub fn check(
                 if pred.unmodelled.is_some() {
                     continue;
                 }
-                if bytes_now != Some(new.as_slice()) {
+                let iterate = pred.also_ok.get(key).is_some_and(|alts| alts.iter().any(|a| bytes_now == Some(a.as_slice())));
+                if bytes_now != Some(new.as_slice()) && !iterate {
                     let now = bytes_now.unwrap_or(b"<not a file>");
                     let d = first_diff(now, new);
                     let msg = if unchanged {
